@@ -713,6 +713,47 @@ def run_split(r, obs):
                     "the second run of one Split object gives %r (%s), the documented schedule "
                     "on the same branch objects %r (%s); branches=%r flow=%r bufsize=%r copy_buf=%r"
                     % (real2, r2exc, model2, m2exc, branches, flow_r, bufsize, copy_buf))
+    # ---- two run() generators of one Split object alive at once (the same Split used twice in
+    # one lazy sequence, two flows zipped): each follows the schedule on its own flow.  Judged
+    # for Splits of stateless branches only (Sources and per-value sequences): a stateful branch
+    # is shared by design
+    if all(b["kind"] == "source" or (b["kind"] == "seq" and b["pervalue"]) for b in branches) \
+            and not r.get("bufsizes"):
+        for bufsize in (1, 2, None):
+            try:
+                twins = [explicit_branch(b) for b in branches]
+                model = frozen(_c03_model.schedule(twins, kinds, gen.build_flow(flow_r), bufsize,
+                                                   copy_buf, lena.core.LenaStopFill, []))
+                sp = lena.core.Split([real_branch(b) for b in branches], bufsize=bufsize,
+                                     copy_buf=copy_buf)
+            except Exception:  # pylint: disable=broad-except
+                break
+            g1 = sp.run(iter(gen.build_flow(flow_r)))
+            g2 = sp.run(iter(gen.build_flow(flow_r)))
+            outs = ([], [])
+            live = [g1, g2]
+            turn = 0
+            try:
+                while live[0] is not None or live[1] is not None:
+                    i = turn % 2
+                    turn += 1
+                    if live[i] is None:
+                        continue
+                    try:
+                        outs[i].append(next(live[i]))
+                    except StopIteration:
+                        live[i] = None
+                # (frozen after the run, like the model: without copy_buf the branches share
+                # the value objects)
+                outs = (frozen(outs[0]), frozen(outs[1]))
+            except Exception as e:  # pylint: disable=broad-except
+                outs = ("raised %r" % (e,), None)
+            obs.count("two_live_runs_compared")
+            verdict(obs, outs[0] == model and outs[1] == model,
+                    "two-live-runs-of-one-split-differ",
+                    "two run() generators of one Split consumed alternately give %r and %r, the "
+                    "documented schedule gives %r for each; branches=%r flow=%r bufsize=%r"
+                    % (outs[0], outs[1], model, branches, flow_r, bufsize))
     # ---- model-free relation: bufsize independence (own buffers only)
     if copy_buf and len(per_bufsize) >= 2:
         ref_key = sorted(per_bufsize)[0]
@@ -905,3 +946,5 @@ RULE += (' Every run-driven Split object is run a second time on a fresh copy of
 RULE += (' Source branches are also instances of a user subclass of Source; plain-sequence branches '
          'are also a bare run element: an inner Split of branches of mixed kinds, or the FillRequest '
          'adapter around a run-only sequence (buffer_input / buffer_output / yield_on_remainder).')
+RULE += (' Splits of stateless branches (Sources, per-value sequences) are also run twice at the '
+         'same time: two run() generators of one object consumed alternately.')
